@@ -56,6 +56,11 @@ type c17filter struct {
 	f    func(string) bool
 }
 
+// c17avoid builds filters from one function literal (closures that share their code and differ in what they capture)
+func c17avoid(sub string) c17filter {
+	return c17filter{"avoid:" + sub, func(s string) bool { return !strings.Contains(s, sub) }}
+}
+
 var c17filters = []c17filter{
 	{"noAA", func(s string) bool { return !strings.Contains(s, "AA") }},
 	{"hasGC", func(s string) bool { return strings.ContainsAny(s, "GC") }},
@@ -178,6 +183,35 @@ func c17units(tier string) []mc.Unit {
 					run(nil, fm)
 					for _, a := range pool {
 						run([]string{a}, fm)
+					}
+				}
+				// filters that are closures of one literal: every pair and a triple
+				subs := []string{"AA", "TG", "CC", "GA"}
+				for i := range subs {
+					for j := range subs {
+						if i == j {
+							continue
+						}
+						var fs []c17filter
+						var ff []func(string) bool
+						for _, x := range []string{subs[i], subs[j]} {
+							f := c17avoid(x)
+							fs = append(fs, f)
+							ff = append(ff, f.f)
+						}
+						if j == (i+1)%len(subs) {
+							f := c17avoid(subs[(j+1)%len(subs)])
+							fs = append(fs, f)
+							ff = append(ff, f.f)
+						}
+						var got []string
+						cas := fmt.Sprintf("order=%d length=%d banned=[] filters=%v", n, length, []string{fs[0].name, fs[1].name, fmt.Sprint(len(fs))})
+						if p := catch(func() { got = primers.CreateBarcodesWithBannedSequences(length, n, nil, ff) }); p != "" {
+							r.Failf("no-panic", cas, nil, "a list", "panic: "+p)
+							continue
+						}
+						cnt++
+						c17judge(r, cas, []string{"closure-filters"}, seq, n, length, nil, fs, got)
 					}
 				}
 				for i, a := range pool {
